@@ -32,7 +32,7 @@
     reported, that every result is a genuine parse result, and evaluated instances. *)
 From Coq Require Import String.
 From FA Require Import model.Base model.Json model.Parse model.SchemaSpec model.Inline model.Canon model.Repo
-     proofs.JsonProofs proofs.ParseProofs proofs.RepoProofs proofs.UnknownProofs proofs.InjectProofs.
+     proofs.JsonProofs proofs.ParseProofs proofs.RepoProofs proofs.UnknownProofs proofs.InjectProofs proofs.IfuProofs.
 Open Scope string_scope.
 
 (** the loader's parse with _write_hint=True is parse_schema *)
@@ -46,6 +46,26 @@ Theorem C19_equiv_partial_first_try : forall f rp schema tbl wh inj p tbl',
   pwr (S f) rp schema tbl wh inj = Some (POk (p, tbl', inj)).
 Proof. exact pwr_first_try. Qed.
 Print Assumptions C19_equiv_partial_first_try.
+
+(** ... and the specification agrees: inline_first_use is the identity on every schema the parser
+    accepts (each reference is in the dictionary, so nothing is inlined), and the names it marks as
+    defined are exactly the keys of the dictionary afterwards.  Together: C19_equiv for zero rounds,
+    for any document, dictionary and repository *)
+Theorem C19_inline_identity_on_accepted : forall rp f j ns wh st d p st',
+  parse_rec f j ns wh st d = POk (p, st') ->
+  forall D, (forall n, mem n D = jhas n (st_tbl st)) ->
+  exists D', ifu_rec f rp j ns D = POk (j, D') /\ (forall n, mem n D' = jhas n (st_tbl st')).
+Proof. exact ifu_id_accepted. Qed.
+Print Assumptions C19_inline_identity_on_accepted.
+
+Theorem C19_equiv_first_try : forall rp f wh kv tbl inj p tbl',
+  jhas "__fastavro_parsed" kv = false ->
+  parse_schema_g wh (fuel_for (JObj kv)) (JObj kv) tbl = POk (p, tbl') ->
+  pwr (S f) rp (JObj kv) tbl wh inj = Some (POk (p, tbl', inj)) /\
+  exists D', ifu_rec (S (jdepth (JObj kv))) rp (JObj kv) "" (keys tbl) = POk (JObj kv, D') /\
+             (forall n, mem n D' = jhas n tbl').
+Proof. exact load_first_try_equiv. Qed.
+Print Assumptions C19_equiv_first_try.
 
 (** whatever the loader returns is the result of a successful parse_schema (of the schema with
     sub-schemas injected, against some dictionary) *)
